@@ -84,7 +84,14 @@ func overlayFromPatch(repo, patchFile string) (map[string][]byte, error) {
 				}
 			}
 			at := -1
-			for _, d := range []int{0, 1, -1, 2, -2, 3, -3, 5, -5, 8, -8, 13, -13, 21, -21, 40, -40, 80, -80} {
+			var offsets []int
+			for d := 0; d <= 400; d++ { // hunks drift when /repo gets fix commits: search outwards
+				offsets = append(offsets, d)
+				if d != 0 {
+					offsets = append(offsets, -d)
+				}
+			}
+			for _, d := range offsets {
 				p := start + d
 				if p < cursor || p+len(want) > len(src) {
 					continue
